@@ -172,8 +172,11 @@ def main(tier_: str) -> int:
             # global default, spell out the stream's default, or give a third value
             gdef = OptionsRepository.get_default_options()
             layered = {'depth': 60, 'mup': 6, 'leeway': 7, 'abr': False, 'base': False, 'time': 'iso'}
+            # ... and list-valued options the stream switches on and a request switches off again (`none`: the empty list, whose URL
+            # text is the empty string)
+            layered_lists = {'bugs': (['saio'], ['none', 'saio']), 'events': (['ping'], ['none', 'ping', 'scte35'])}
             da.add_fixture('bbb', directory='sdef', title='stream with its own option defaults', only={'bbb_v7', 'bbb_a1'},
-                           defaults={opts[n].full_name: v for n, v in layered.items()})
+                           defaults={opts[n].full_name: v for n, v in layered.items()} | {opts[n].full_name: v[0] for n, v in layered_lists.items()})
             third = {'depth': '45', 'mup': '9', 'leeway': '3', 'abr': '1', 'base': '1', 'time': 'xsd'}
             lvecs: list[dict[str, str]] = [{}]
             for n, sv in layered.items():
@@ -182,6 +185,10 @@ def main(tier_: str) -> int:
                 for raw in (gtxt, stxt, third[n]):
                     lvecs.append({n: raw})
                 lvecs.append({n: gtxt, 'patch': '1'})
+            for n, (_, raws) in layered_lists.items():
+                for raw in raws:
+                    lvecs.append({n: raw})
+            lvecs.append({'bugs': 'none', 'events': 'none', 'depth': '60'})
             for _ in range(6 if tier_ == 'quick' else 60):
                 ks = rng.sample(sorted(layered), 3)
                 lvecs.append({n: rng.choice([str(opts[n].to_string(getattr(gdef, opts[n].full_name))), third[n]]) for n in ks})
